@@ -25,6 +25,8 @@ def owner(ev, trace_path, lineno):
         return {"C10"}
     if k == "quiesce":
         return {"C09"}
+    if k == "ret" and ev.get("err") == "batch-modified":
+        return {"C20", "C10"}
     if k == "ret":
         # find the call
         kind = None
@@ -53,6 +55,8 @@ def conc_runs(ctx, jobs):
             args.append("-close")
         if j.get("fault"):
             args += ["-fault", j["fault"]]
+        if j.get("fat"):
+            args += ["-fat", str(j["fat"])]
         s = run_driver(args, timeout=600)
         s["path"] = out
         s["cmd"] = " ".join(args)
